@@ -134,8 +134,20 @@ pub fn mpqs(n: Uint, k: u32, prefs: &Preferences, tpool: Option<&rayon::ThreadPo
         done: AtomicBool::new(false),
     };
 
-    fn process_poly_block(s: &SieveMPQS, wks: &mut Workspace, dbase: u128, dstride: usize) {
-        let d_r_values = sieve_for_polys(&s.n, dbase, dstride);
+    // Returns whether the range of usable D values is exhausted.
+    fn process_poly_block(s: &SieveMPQS, wks: &mut Workspace, dbase: u128, dstride: usize) -> bool {
+        let mut d_r_values = sieve_for_polys(&s.n, dbase, dstride);
+        // Polynomials need D^2 < n: larger D only happen for tiny inputs
+        // (in particular when a thread pool starts from distant blocks).
+        let before = d_r_values.len();
+        d_r_values.retain(|&(d, _)| {
+            let d = Uint::cast_from(d);
+            d * d < s.n
+        });
+        let exhausted = d_r_values.len() < before;
+        if d_r_values.is_empty() {
+            return exhausted;
+        }
         if s.prefs.verbose(Verbosity::Verbose) {
             eprintln!(
                 "Generated {} polynomials D={}..{} optimal={}",
@@ -152,7 +164,7 @@ pub fn mpqs(n: Uint, k: u32, prefs: &Preferences, tpool: Option<&rayon::ThreadPo
                 mpqs_poly(&s, idx, *d, r, wks);
                 if s.finished() {
                     #[cfg(yamaquasi_verif)] crate::verif::ev(|| format!("\"op\":\"unit_interrupt\",\"st\":\"mpqs\",\"idx\":{}", idx));
-                    return;
+                    return exhausted;
                 }
             }
         }
@@ -163,6 +175,7 @@ pub fn mpqs(n: Uint, k: u32, prefs: &Preferences, tpool: Option<&rayon::ThreadPo
                 (polys_done * s.interval_size as u64) >> 20,
             ));
         }
+        exhausted
     }
 
     #[cfg(yamaquasi_verif)] crate::verif::ev(|| format!("\"op\":\"stage\",\"st\":\"mpqs\",\"par\":{},\"tasks\":0,\"fb\":{},\"gap\":0,\"target\":{}", tpool.is_some(), fbase.len(), s.target.load(Ordering::Relaxed)));
@@ -191,10 +204,10 @@ pub fn mpqs(n: Uint, k: u32, prefs: &Preferences, tpool: Option<&rayon::ThreadPo
             let dbase = polybase + blkno as u128 * polystride as u128;
             #[cfg(yamaquasi_verif)] crate::verif::ev(|| format!("\"op\":\"task\",\"st\":\"mpqs\",\"u\":\"{}\"", blkno));
             #[cfg(yamaquasi_verif)] crate::verif::ev(|| format!("\"op\":\"unit_start\",\"st\":\"mpqs\""));
-            process_poly_block(&s, &mut wks, dbase, polystride as usize);
+            let exhausted = process_poly_block(&s, &mut wks, dbase, polystride as usize);
             #[cfg(yamaquasi_verif)] crate::verif::ev(|| format!("\"op\":\"unit_end\",\"st\":\"mpqs\""));
             #[cfg(yamaquasi_verif)] crate::verif::ev(|| format!("\"op\":\"pre_poll\",\"st\":\"mpqs\",\"site\":\"seq\""));
-            if prefs.abort() || s.finished() {
+            if prefs.abort() || s.finished() || exhausted {
                 #[cfg(yamaquasi_verif)] crate::verif::ev(|| format!("\"op\":\"loop_exit\",\"st\":\"mpqs\",\"why\":\"done_or_abort\""));
                 break;
             }
